@@ -429,6 +429,16 @@ def wedge_cause(t: Trace, fin: dict) -> str:
         ups = [fin["stages"][u]["status"] for u in reqs]
         if s["status"] == "NOT_STARTED" and reqs and all(u in CONTINUABLE for u in ups) and any(u in fwd_src for u in reqs) and i not in rearmed:
             return "downstream-of-jump-source-never-triggered"   # F29: jump completed its source without start_next
+    for k in range(len(t.ops)):
+        for m in op_codes(t, k):
+            if m.startswith("JS."):
+                src = int(m.split(".")[1])
+                pre, post = parse_line(t.lines[k]), parse_line(t.lines[k + 1])
+                for i, (a, b) in enumerate(zip(pre["stages"], post["stages"])):
+                    if i != src and a["status"] == "RUNNING" and b["status"] == "NOT_STARTED":
+                        # F4 family: the jump re-arms a stage OTHER than its source while that stage is mid-flight (a parallel
+                        # branch); the messages of the interrupted iteration are still queued and act on the new one
+                        return "jump-rearmed-running-stage"
     for i, s in enumerate(fin["stages"]):
         ups = [fin["stages"][u]["status"] for u in t.spec.stages[i].reqs]
         if s["status"] == "NOT_STARTED" and i in rearmed and all(u in COMPLETE for u in ups) and in_order:
@@ -570,15 +580,31 @@ def mon_c01(t: Trace) -> list[tuple[str, str]]:
     k = t.meta.get("crash_k")
     if sweep_triggered_jump_downstream(t):
         at, k = "downstream-of-jump-source-never-triggered", "uninterrupted"
+    elif t.meta.get("crash2_msg"):
+        # two crashes: name both points, the StartStage claim|plan point (F18) first when it is one of them
+        pts = [(at, k), (t.meta["crash2_msg"].split(".")[0], t.meta.get("crash2_k"))]
+        if ("SS", 1) in pts:
+            at, k = "SS", 1
+        else:
+            at, k = f"{pts[0][0]}@{pts[0][1]}+{pts[1][0]}", pts[1][1]
+    # A late redelivery of the un-acked row (the lock lapses by the clock) and a second crash REORDER the remaining messages
+    # relative to the uninterrupted run.  Two things then legitimately depend on the order, crash or no crash (C02's subject):
+    #  - which of several failing / halting parallel branches wins (who ends TERMINAL, who CANCELED, how far the others got);
+    #  - jump loops, whose messages carry no iteration tag (known F4 family): reported under one stable signature class.
+    reordered = bool(t.meta.get("hold")) or t.meta.get("crashes", 1) > 1
+    halting = any(o[0] in "TXPCD" for st in t.spec.stages for script in st.tasks for o in script)
+    jumped = any(c.startswith("JS.") for j in range(len(t.ops)) for c in op_codes(t, j))
+    race_dependent = reordered and halting
+    cls = "reordered-jump-loop:" if (reordered and jumped) else ""
     if not got["quiesced"]:
         hits.append((f"not-drained-after-recovery:{at}", "queue not drained after crash recovery"))
         return hits
     fin = t.final()
     if fin["wf"] not in COMPLETE and not waiting_explicitly(fin) and ref["wf"] in COMPLETE:
-        hits.append((f"stuck-after-crash:{at}@{k}", f"after a crash in {t.meta.get('crash_msg')} (after {k} commits) + restart + sweep + drain the workflow stays {fin['wf']} with stages {got['stages']}; uninterrupted run: {ref['wf']}"))
+        hits.append((f"{cls}stuck-after-crash:{at}@{k}", f"after a crash in {t.meta.get('crash_msg')} (after {k} commits) + restart + sweep + drain the workflow stays {fin['wf']} with stages {got['stages']}; uninterrupted run: {ref['wf']}"))
         return hits
-    if got["wf"] != ref["wf"] or got["stages"] != ref["stages"]:
-        hits.append((f"outcome-differs:{at}@{k}", f"crash in {t.meta.get('crash_msg')} after {k} commits: final {got['wf']} {got['stages']} vs uninterrupted {ref['wf']} {ref['stages']}"))
+    if (got["wf"] != ref["wf"] or got["stages"] != ref["stages"]) and not race_dependent:
+        hits.append((f"{cls}outcome-differs:{at}@{k}", f"crash in {t.meta.get('crash_msg')} after {k} commits: final {got['wf']} {got['stages']} vs uninterrupted {ref['wf']} {ref['stages']}"))
     # first-come joins (OR / DISCRIMINATOR / N_OF_M / MULTI_MERGE) hand their stage whatever upstream outputs exist at the
     # moment the join fires: the data such a stage (and everything downstream of it) sees depends on the delivery order even
     # without a crash, and a recovery sweep legitimately changes that order - only AND-joined data is schedule-independent
@@ -590,11 +616,11 @@ def mon_c01(t: Trace) -> list[tuple[str, str]]:
         if int(key.split(".")[0]) in first_come:
             continue
         if key in got["seen"] and got["seen"][key] != seen:
-            hits.append((f"upstream-data-differs:{at}@{k}", f"task {key} saw {got['seen'][key]} after the crash in {t.meta.get('crash_msg')}, {seen} in the uninterrupted run"))
+            hits.append((f"{cls}upstream-data-differs:{at}@{k}", f"task {key} saw {got['seen'][key]} after the crash in {t.meta.get('crash_msg')}, {seen} in the uninterrupted run"))
             break
     extra = sum(got["execs"].values()) - sum(ref["execs"].values())
-    if extra > t.meta.get("crashes", 1):
-        hits.append((f"more-than-inflight-step-repeated:{at}@{k}", f"{extra} extra task executions after {t.meta.get('crashes', 1)} crash(es)"))
+    if extra > t.meta.get("crashes", 1) and not race_dependent:
+        hits.append((f"{cls}more-than-inflight-step-repeated:{at}@{k}", f"{extra} extra task executions after {t.meta.get('crashes', 1)} crash(es)"))
     return hits
 
 
@@ -709,6 +735,10 @@ def _one_random(args) -> dict:
                     out.extend(produce_c18(rng, wd, tier))
                 elif prop == "C15" and j % 6 == 0:
                     out.extend(produce_c15(rng, wd, tier))
+                elif prop == "C05" and j % 6 == 0:
+                    # "queue drained and no handler running" also holds after a crash + restart + recovery + drain:
+                    # a handler that splits state change and continuation over two commits strands the workflow there
+                    out.extend(produce_c01(rng, wd, "quick"))
                 else:
                     out.append(produce(prop, rng, wd, j))
             except Exception:
@@ -865,10 +895,35 @@ def produce_c01(rng: random.Random, wd: Path, tier: str) -> list[dict]:
         # the dead worker's lock lapses by the clock: the un-acked row comes back after `hold` further deliveries
         hold = rng.choice([0, 0, 0, 1, 2, 3, 5, 8])
         hold_then_expire(r, hold)
+        crashes = 1
+        crash2 = None
+        if (tier == "thorough" and rng.random() < 0.5) or (tier != "thorough" and rng.random() < 0.25):
+            # a second crash: the recovering worker dies too, a few deliveries later, at any commit of that delivery
+            for _ in range(rng.randint(0, 6)):
+                p = r.eligible(True)
+                if not p:
+                    break
+                r.apply(("d", p[0][0]))
+            p = r.eligible(True)
+            if p:
+                k2 = rng.choice([0, 1, 1, 2])
+                r.apply(("k", p[0][0], k2))
+                if r.t.ops[-1].startswith("k"):
+                    crashes = 2
+                    crash2 = (p[0][1], k2)
+                    # every restart runs the recovery sweep (once or twice), before or after the dead worker's lock lapses
+                    if rng.random() < 0.4:
+                        r.e.expire_locks()
+                    r.apply(("w",))
+                    if rng.random() < 0.3:
+                        r.apply(("w",))
+                    hold_then_expire(r, rng.choice([0, 0, 1, 3]))
         r.drain(None, "fifo")
         t = r.finish()
-        t.tag = "crash" if hold == 0 else "crash-late-redelivery"
-        t.meta = {"ref": ref_out, "crash_msg": code, "crash_k": k, "crashes": 1, "hold": hold}
+        t.tag = ("crash" if hold == 0 else "crash-late-redelivery") + ("-twice" if crashes == 2 else "")
+        t.meta = {"ref": ref_out, "crash_msg": code, "crash_k": k, "crashes": crashes, "hold": hold}
+        if crashes == 2 and crash2:
+            t.meta["crash2_msg"], t.meta["crash2_k"] = crash2
         out.append(pack(t))
     return out
 
